@@ -1,50 +1,26 @@
-"""Generators: regenerate coq/Gen/*.v from /repo's current source (T and S ties)."""
+"""Generator registry: regenerate coq/Gen/*.v from /repo's current source (T and S ties).
+
+Each bin/gens_<topic>.py defines GENS = {name: callable}.  A generator (re)writes
+coq/Gen/<name>.v with vlib.write_if_changed and returns an object with an `errors` dict
+(translator) or any result object; it must be idempotent and memoised per process."""
 
 from __future__ import annotations
 
+import glob
+import importlib
 import os
 
-import vlib
-
-_cache = {}
+GENS = {}
 
 
-def _emit(tr, name, imports=()):
-  header = "".join(f"From VF Require Import {i}.\n" for i in imports)
-  tr.emit(os.path.join(vlib.COQ, "Gen", name + ".v"), header)
-  return tr
+def _load():
+  here = os.path.dirname(os.path.abspath(__file__))
+  for p in sorted(glob.glob(os.path.join(here, "gens_*.py"))):
+    mod = importlib.import_module(os.path.basename(p)[:-3])
+    for k, v in getattr(mod, "GENS", {}).items():
+      if k in GENS and GENS[k] is not v:
+        raise RuntimeError(f"duplicate generator {k}")
+      GENS[k] = v
 
 
-def gen_math():
-  """All @wp.func of math.py."""
-  import warp as wp
-
-  import translate as T
-
-  if "math" in _cache:
-    return _cache["math"]
-  import mujoco_warp._src.math as mm
-
-  tr = T.Translator()
-  names = [n for n, v in vars(mm).items() if isinstance(v, wp.Function) and v.func is not None and v.func.__module__ == mm.__name__]
-  for n in names:
-    if n == "safe_div":
-      tr.want(mm.__name__, n, [T.S, T.S])
-    elif n == "normalize_with_norm":
-      tr.want(mm.__name__, n, [T.V(3)])
-    else:
-      tr.want(mm.__name__, n)
-  _emit(tr, "math")
-  _cache["math"] = tr
-  return tr
-
-
-GENS = {"math": gen_math}
-
-
-def regenerate(names):
-  """Return {name: translator-or-result}, raising nothing: errors are inside."""
-  out = {}
-  for n in names:
-    out[n] = GENS[n]()
-  return out
+_load()
